@@ -741,7 +741,7 @@ func runC11(c *core.Ctx) core.Meta {
 						okS := step == X && bo.Op == token.ADD
 						st3.Ob(okS)
 						if !okS {
-							c.ReportAt("R11.3", fn, bo.Pos(), "cursor:"+phi.Comment, fmt.Sprintf("cursor %s advances by %s while the remaining count decreases by %s", phi.Comment, short(prov.Of(step)), short(prov.Of(X))))
+							c.ReportAt("R11.3", fn, bo.Pos(), "cursor:"+core.PinnedName(fn, phi.Comment), fmt.Sprintf("cursor %s advances by %s while the remaining count decreases by %s", phi.Comment, short(prov.Of(step)), short(prov.Of(X))))
 						}
 					}
 				}
